@@ -5,8 +5,9 @@ from . import models as M
 
 
 def m_timing_safe_compare(I, a, k):
-    # timing_safe_compare(a, b) <=> a == b  (it is H(n+a) == H(n+b); assumed)
-    I.path.notes.append("assumed: timing_safe_compare(a,b) <=> a == b")
+    # timing_safe_compare(a, b) <=> a == b  (it is H(n+a) == H(n+b)): callee contract, discharged on the real body by
+    # contracts/tsc.TimingSafeCompare under SHA-256 collision resistance
+    I.path.notes.append("callee contract: timing_safe_compare(a,b) <=> a == b (discharged by TimingSafeCompare under SHA-256 collision resistance)")
     return M.values_equal(I, a[0], a[1])
 
 
